@@ -288,6 +288,27 @@ pub fn gen(rng: &mut Rng, tier: Tier, out: &mut Vec<String>) {
         let mut cs = vec![0usize; cols + 1]; for x in &sorted { cs[x.1 + 1] += 1; } for j in 0..cols { cs[j + 1] += cs[j]; }
         out.push(format!("sp_vecs q {} {} {} {} {}", rows, cols, wr_vec(&val), wr_vec(&ri), wr_vec(&cs)));
     }
+    // ILL-FORMED raw arrays (public fields / from_vecs do no validation): perturbed column starts, short or long
+    // value / row arrays, rows out of range. Outside the claim of C06 (no oracle verdict); they keep the MODEL honest on
+    // the panic / value behaviour of every accessor (e.g. the short-circuit `&&` of get / insert)
+    for _ in 0..nh {
+        let (rows, cols) = (rng.below(4), rng.below(4));
+        let v = gen_pattern::<Q>(rng, rows.max(1), cols, 50);
+        let mut sorted = v.clone(); sorted.sort_by_key(|x| (x.1, x.0));
+        let mut val: Vec<Q> = sorted.iter().map(|x| x.2).collect(); let mut ri: Vec<usize> = sorted.iter().map(|x| x.0).collect();
+        let mut cs = vec![0usize; cols + 1]; for x in &sorted { cs[x.1 + 1] += 1; } for j in 0..cols { cs[j + 1] += cs[j]; }
+        for _ in 0..1 + rng.below(2) { match rng.below(9) {
+            0 => { if !cs.is_empty() { let k = rng.below(cs.len()); cs[k] += 1 + rng.below(2); } }
+            1 => { if !cs.is_empty() { let k = rng.below(cs.len()); cs[k] = cs[k].saturating_sub(1 + rng.below(2)); } }
+            2 => { if !cs.is_empty() && rng.below(2) == 0 { cs.pop(); } else { cs.push(rng.below(5)); } }
+            3 => { if !val.is_empty() && rng.below(2) == 0 { val.pop(); } else { val.push(Q::int(7)); } }
+            4 => { if !ri.is_empty() && rng.below(2) == 0 { ri.pop(); } else { ri.push(rng.below(rows + 2)); } }
+            5 => { if !ri.is_empty() { let k = rng.below(ri.len()); ri[k] = rows + rng.below(2); } }
+            6 => { if cs.len() >= 2 { let k = rng.below(cs.len() - 1); cs.swap(k, k + 1); } }
+            _ => { if !cs.is_empty() { cs[0] += 1; } }                                   // col_index() shorter than nonzero
+        } }
+        out.push(format!("sp_vecs q {} {} {} {} {}", rows, cols, wr_vec(&val), wr_vec(&ri), wr_vec(&cs)));
+    }
     // raw compressed-column arrays whose rows are in ANY order inside a column, followed by a history
     // of overwrites / insertions / scalings / transpositions
     for i in 0..nh / 2 {
